@@ -254,6 +254,11 @@ func (ch c05) Run(c *core.Ctx) {
 		}
 		onConn++
 		text := fmt.Sprintf("Q%d %s", idx, s.shape())
+		if (idx/nb)%5 == 1 {
+			// a query text is a NUL-terminated byte string; the library announces no check of its encoding
+			text += core.Pick(core.NewRng(c.Seed, "C05text", 0, idx), []string{" caf\xe9", " \uFFFD", " \xff\xfe\x80", " \xc3", " 漢字 😀", " \x01\x1b[31m"})
+			c.Count("query_texts_with_unusual_bytes", 1)
+		}
 		if s.Kind == "blank" {
 			text = s.Text
 		} else {
